@@ -1152,12 +1152,33 @@ def _resolver_skeleton(mod: ast.Module, name: str) -> Tuple[List[str], str, List
                 raise ExtractError(f"{name}: a guard does not append an error and continue: {ast.unparse(st.test)}")
             guards.append(_norm(st.test, mapping))
         elif isinstance(st, ast.For):
-            if _norm(st.iter, mapping) != "SUBSET.literals" or not isinstance(st.target, ast.Name):
+            # either `for L in SUBSET.literals: if <test>: ERRORS.append(…)`
+            # or     `for L in [x for x in SUBSET.literals if <test>]: ERRORS.append(…)` (the list possibly named once before)
+            it = extract.resolve_local(fn, st.iter)
+            appends_in = lambda block: any(  # noqa: E731
+                isinstance(n, ast.Call) and _norm(n.func, mapping) == "ERRORS.append" for b in block for n in ast.walk(b)
+            )
+            if (
+                isinstance(it, ast.ListComp)
+                and len(it.generators) == 1
+                and not it.generators[0].is_async
+                and isinstance(it.generators[0].target, ast.Name)
+                and isinstance(it.elt, ast.Name)
+                and it.elt.id == it.generators[0].target.id
+                and _norm(it.generators[0].iter, mapping) == "SUBSET.literals"
+            ):
+                if len(it.generators[0].ifs) != 1 or any(isinstance(n, ast.If) for n in st.body) or not appends_in(st.body):
+                    raise ExtractError(f"{name}: the inner loop has no single error-appending test")
+                inner_map = dict(mapping)
+                inner_map[it.generators[0].target.id] = "LITERAL"
+                inner = _norm(it.generators[0].ifs[0], inner_map)
+                continue
+            if _norm(it, mapping) != "SUBSET.literals" or not isinstance(st.target, ast.Name):
                 raise ExtractError(f"{name}: the inner loop does not iterate over the literals of the subset")
             inner_map = dict(mapping)
             inner_map[st.target.id] = "LITERAL"
             ifs = [n for n in st.body if isinstance(n, ast.If)]
-            if len(ifs) != 1 or not any(isinstance(n, ast.Call) and _norm(n.func, mapping) == "ERRORS.append" for n in ast.walk(ifs[0])):
+            if len(ifs) != 1 or not appends_in([ifs[0]]):
                 raise ExtractError(f"{name}: the inner loop has no single error-appending test")
             inner = _norm(ifs[0].test, inner_map)
     if inner is None:
@@ -1184,7 +1205,9 @@ def gen_SdkConst(repo: pathlib.Path) -> str:
     # the from-string map and function
     smod = extract._parse(repo, "aas_core_codegen/python/lib/_generate_stringification.py")
     fn = extract._func(smod, "_generate_enum_from_string")
-    loops = [n for n in ast.walk(fn) if isinstance(n, ast.For)]
+    # (what a module-level helper writes reads as if it were written at its call, parameters bound to the arguments)
+    fnodes = extract.nodes_in_execution_order(smod, fn, lambda g: True)
+    loops = [n for n in fnodes if isinstance(n, ast.For)]
     if len(loops) != 1 or ast.unparse(loops[0].iter) != "enumeration.literals" or not isinstance(loops[0].target, ast.Name):
         raise ExtractError("_generate_enum_from_string: expected one loop over enumeration.literals")
     lmap = {loops[0].target.id: "LITERAL"}
@@ -1192,7 +1215,7 @@ def gen_SdkConst(repo: pathlib.Path) -> str:
     entry = [x for x in entry if "LITERAL" in x]
     if len(entry) != 1:
         raise ExtractError(f"_generate_enum_from_string: expected one formatted value over the literal in a map entry, found {entry}")
-    tails = [c.value for n in ast.walk(fn) if isinstance(n, ast.JoinedStr) for c in n.values if isinstance(c, ast.Constant) and isinstance(c.value, str) and c.value.startswith(".get(")]
+    tails = [c.value for n in fnodes if isinstance(n, ast.JoinedStr) for c in n.values if isinstance(c, ast.Constant) and isinstance(c.value, str) and c.value.startswith(".get(")]
     if len(tails) != 1:
         raise ExtractError("_generate_enum_from_string: the lookup `<map>.get(…)` of the from-string function was not found")
     lookup = tails[0].split("\n")[0].strip()
